@@ -13,16 +13,17 @@ FEATURE_SCORE = [
 def config_strategy(thresholds=(0.0, 0.5), max_window=6):
     from hypothesis import strategies as st
 
-    return st.fixed_dictionaries(
-        {
-            "candidates_method": st.sampled_from(["fixed_window", "local_queues"]),
-            "track_matching_method": st.sampled_from(["hungarian", "greedy"]),
-            "feat": st.integers(0, len(FEATURE_SCORE) - 1),
-            "scoring_reduction": st.sampled_from(["mean", "max"]),
-            "window_size": st.integers(1, max_window),
-            "instance_score_threshold": st.sampled_from(list(thresholds)),
-        }
-    )
+    # tuples + map rather than fixed_dictionaries: the latter draws its keys in a shuffled order for > 3 keys,
+    # which Hypothesis' fuzz_one_input byte provider (tools/fuzz_history.py) cannot satisfy
+    keys = ["candidates_method", "track_matching_method", "feat", "scoring_reduction", "window_size", "instance_score_threshold"]
+    return st.tuples(
+        st.sampled_from(["fixed_window", "local_queues"]),
+        st.sampled_from(["hungarian", "greedy"]),
+        st.integers(0, len(FEATURE_SCORE) - 1),
+        st.sampled_from(["mean", "max"]),
+        st.integers(1, max_window),
+        st.sampled_from(list(thresholds)),
+    ).map(lambda t: dict(zip(keys, t)))
 
 
 def all_configs(windows=(1, 3, 5), thresholds=(0.0,)):
